@@ -448,8 +448,11 @@ class FromArgs(Generic[T]):
     _hash_fn: Callable[[T], Hashable] = field(default=hash)
 
     def __setitem__(self, i: int, arg: T) -> None:
-        if i in self._i_to_arg:
-            assert self._i_to_arg[i] == arg
+        # Compare like we look them up, so that 1 and True are different and nan is nan
+        if i in self._i_to_arg and self._hash_fn(self._i_to_arg[i]) != self._hash_fn(
+            arg
+        ):
+            raise ValueError(f"Two different args {self._i_to_arg[i]} and {arg} at {i}")
         self._i_to_arg[i] = arg
         self._arg_to_i[self._hash_fn(arg)] = i
 
@@ -460,6 +463,8 @@ class FromArgs(Generic[T]):
         return bool(self._i_to_arg)
 
     def to_tuple(self) -> Tuple[T, ...]:
+        if set(self._i_to_arg) != set(range(len(self._i_to_arg))):
+            raise ValueError(f"The indices {sorted(self._i_to_arg)} leave a gap")
         return tuple(v for _, v, in sorted(self._i_to_arg.items()))
 
     def add(self, arg: T, index_override: Optional[int]) -> int:
